@@ -71,103 +71,128 @@ func rulesRangeCode(p *Prog, r *Report) {
 		return
 	}
 	r.Funcs[p.shortKey(glr)] = true
-	// T5
+	// T5: where the three recorded positions come from, by provenance (helpers seen through): the family
+	// index is the induction variable of a full range over the table, the version-group index that of a
+	// full range over the family, the index in the group that of a full range over the group (under the
+	// test "entry == simplified id") or the result of slices.Index(group, simplified id). Every loop of
+	// the search, in getLicenseRange and in the helpers it delegates to, must be exhaustive.
 	{
 		var probs []string
-		// loops: nest by dominance
-		var hdrs []*ssa.BasicBlock
+		qzp := &quantizer{p: p, elemVar: map[ssa.Value]string{}, idxProv: true, stop: map[string]bool{"simplifyLicense": true, "LicenseRanges": true}}
+		var lr string
 		for _, b := range glr.Blocks {
-			if isLoopHeader(b) {
-				hdrs = append(hdrs, b)
-			}
-		}
-		sort.Slice(hdrs, func(i, j int) bool { return hdrs[i].Dominates(hdrs[j]) })
-		type loopInfo struct {
-			idx  ssa.Value
-			coll ssa.Value
-		}
-		var loops []loopInfo
-		for _, h := range hdrs {
-			ifi, ok := h.Instrs[len(h.Instrs)-1].(*ssa.If)
-			if !ok {
-				continue
-			}
-			cmp, ok := ifi.Cond.(*ssa.BinOp)
-			if !ok {
-				continue
-			}
-			ln, ok := cmp.Y.(*ssa.Call)
-			if !ok || len(ln.Call.Args) == 0 || isRangeIndexOf(cmp.X, ln.Call.Args[0]) != nil {
-				probs = append(probs, "a loop of the position search is not a full forward range")
-				continue
-			}
-			loops = append(loops, loopInfo{cmp.X, ln.Call.Args[0]})
-		}
-		if len(loops) != 3 {
-			probs = append(probs, fmt.Sprintf("expected three nested ranges over the table, found %d", len(loops)))
-		} else {
-			// nesting: coll[1] = elem(coll[0]) etc., coll[0] = LicenseRanges()
-			c0, ok := loops[0].coll.(*ssa.Call)
-			if !ok || c0.Call.StaticCallee() == nil || c0.Call.StaticCallee().Name() != "LicenseRanges" {
-				probs = append(probs, "the outer range is not over LicenseRanges()")
-			}
-			if !isElemOf(loops[1].coll, loops[0].coll) || !isElemOf(loops[2].coll, loops[1].coll) {
-				probs = append(probs, "the ranges are not nested family → version group → id")
-			}
-			want := map[string]ssa.Value{lk.group: loops[0].idx, lk.version: loops[1].idx, lk.index: loops[2].idx}
-			names := map[string]string{lk.group: "licenseGroup", lk.version: "versionGroup", lk.index: "licenseIndex"}
-			seen := map[string]bool{}
-			var matchBlock *ssa.BasicBlock
-			for _, b := range glr.Blocks {
-				for _, in := range b.Instrs {
-					mu, ok := in.(*ssa.MapUpdate)
-					if !ok {
-						continue
-					}
-					kc, ok := mu.Key.(*ssa.Const)
-					if !ok || kc.Value == nil {
-						probs = append(probs, "non-constant location key")
-						continue
-					}
-					k := kc.Value.ExactString()
-					seen[k] = true
-					matchBlock = b
-					if want[k] != mu.Value {
-						probs = append(probs, fmt.Sprintf("location[%s] is set to %s, not to the index of the matching loop level", names[k], describeIdx(mu.Value)))
-					}
+			for _, in := range b.Instrs {
+				if c, ok := in.(*ssa.Call); ok && c.Call.StaticCallee() != nil && c.Call.StaticCallee().Name() == "LicenseRanges" {
+					lr = qzp.prov(c, 0)
 				}
 			}
-			for k, n := range names {
-				if !seen[k] {
-					probs = append(probs, "location["+n+"] is never set")
+		}
+		probeDesc := p.shortKey(simp) + "(param:" + glr.Params[0].Name() + ")"
+		if lr == "" {
+			probs = append(probs, "the search does not run over LicenseRanges()")
+		}
+		names := map[string]string{lk.group: "licenseGroup", lk.version: "versionGroup", lk.index: "licenseIndex"}
+		want := map[string][]string{
+			lk.group:   {"idx(" + lr + ")"},
+			lk.version: {"idx(elem(" + lr + "))"},
+			lk.index:   {"idx(elem(elem(" + lr + ")))", "indexof(elem(elem(" + lr + ")), " + probeDesc + ")"},
+		}
+		seen := map[string]bool{}
+		var matchBlock *ssa.BasicBlock
+		byLoopTest := false
+		for _, b := range glr.Blocks {
+			for _, in := range b.Instrs {
+				mu, ok := in.(*ssa.MapUpdate)
+				if !ok {
+					continue
+				}
+				kc, ok := mu.Key.(*ssa.Const)
+				if !ok || kc.Value == nil {
+					probs = append(probs, "non-constant location key")
+					continue
+				}
+				k := kc.Value.ExactString()
+				seen[k] = true
+				matchBlock = b
+				got := qzp.prov(mu.Value, 0)
+				okV := false
+				for _, w := range want[k] {
+					if got == w {
+						okV = true
+					}
+				}
+				if !okV {
+					probs = append(probs, fmt.Sprintf("location[%s] is set to %s, not to the position of the matching entry at that level of the table (%s)", names[k], shortDesc(got), shortDesc(strings.Join(want[k], " or "))))
+				}
+				if k == lk.index && strings.HasPrefix(got, "idx(") {
+					byLoopTest = true
 				}
 			}
-			// match condition and first-match return
-			if matchBlock != nil {
-				fb := newBoundsProver(p, sharedEngineLite(p)).forFn(glr)
-				okCond := false
-				for cf := range fb.facts[matchBlock.Index] {
-					bo, ok := cf.c.(*ssa.BinOp)
-					if !ok || !cf.pol || bo.Op != token.EQL {
-						continue
-					}
-					for _, pair := range [][2]ssa.Value{{bo.X, bo.Y}, {bo.Y, bo.X}} {
-						call, ok := pair[0].(*ssa.Call)
-						if ok && call.Call.StaticCallee() == simp && call.Call.Args[0] == ssa.Value(glr.Params[0]) && isElemOf(pair[1], loops[2].coll) {
-							okCond = true
+		}
+		for k, n := range names {
+			if !seen[k] {
+				probs = append(probs, "location["+n+"] is never set")
+			}
+		}
+		if matchBlock != nil && byLoopTest {
+			// loop form: the record is made under "entry == simplified id"
+			okCond := false
+			for _, l := range pathLiteralsWith(qzp, glr, matchBlock) {
+				if l.Op == "atom" && (l.Atom == canonAtom("(elem(elem(elem("+lr+"))) == "+probeDesc+")")) {
+					okCond = true
+				}
+			}
+			if !okCond {
+				probs = append(probs, "the match condition is not simplifyLicense(id) == table entry")
+			}
+		}
+		if matchBlock != nil {
+			if _, isRet := matchBlock.Instrs[len(matchBlock.Instrs)-1].(*ssa.Return); !isRet {
+				probs = append(probs, "the search does not return at the first match")
+			}
+		}
+		// exhaustiveness of every loop involved: in getLicenseRange and in the helpers whose results it uses
+		fnsToCheck := []*ssa.Function{glr}
+		for _, b := range glr.Blocks {
+			for _, in := range b.Instrs {
+				if c, ok := in.(*ssa.Call); ok && c.Call.StaticCallee() != nil && p.InModule(c.Call.StaticCallee()) && c.Call.StaticCallee() != simp && hasLoop(c.Call.StaticCallee()) {
+					fnsToCheck = append(fnsToCheck, c.Call.StaticCallee())
+				}
+			}
+		}
+		for _, fn := range fnsToCheck {
+			var hdrs []*ssa.BasicBlock
+			for _, b := range fn.Blocks {
+				if isLoopHeader(b) {
+					hdrs = append(hdrs, b)
+				}
+			}
+			sort.Slice(hdrs, func(i, j int) bool { return hdrs[i].Dominates(hdrs[j]) })
+			// the success block: the record (getLicenseRange) or the return of found positions (a helper)
+			var succ *ssa.BasicBlock
+			if fn == glr {
+				succ = matchBlock
+			} else {
+				for _, b := range fn.Blocks {
+					if ret, ok := b.Instrs[len(b.Instrs)-1].(*ssa.Return); ok && len(ret.Results) > 0 {
+						if _, isC := ret.Results[0].(*ssa.Const); !isC {
+							succ = b
 						}
 					}
 				}
-				if !okCond {
-					probs = append(probs, "the match condition is not simplifyLicense(id) == table entry")
+			}
+			if succ == nil || len(hdrs) == 0 {
+				continue
+			}
+			var test *ssa.BasicBlock
+			for cur := succ.Idom(); cur != nil; cur = cur.Idom() {
+				if _, ok := cur.Instrs[len(cur.Instrs)-1].(*ssa.If); ok && !isLoopHeader(cur) {
+					test = cur
+					break
 				}
-				if _, isRet := matchBlock.Instrs[len(matchBlock.Instrs)-1].(*ssa.Return); !isRet {
-					probs = append(probs, "the search does not return at the first match")
-				}
-				// exhaustive: no conditional inside the nest can skip table entries before they are tested
-				if t := matchBlock.Idom(); t != nil {
-					probs = append(probs, skipsInSearch(p, hdrs, t)...)
-				}
+			}
+			if test != nil {
+				probs = append(probs, skipsInSearch(p, hdrs, test)...)
 			}
 		}
 		if len(probs) > 0 {
